@@ -643,9 +643,9 @@ def check(run, repo):
     n = wrapping_concrete(run, repo, wa, thorough)
     run.floor('wrapping cases, concrete tokens', n, 70)
     n = ranges(run, repo, ra, thorough)
-    run.floor('range cases', n, 150)
+    run.floor('range cases', n, 300)
     n = wrapping(run, repo, wa, thorough)
-    run.floor('wrapping cases', n, 50)
+    run.floor('wrapping cases', n, 100)
 
 
 C_ = 'pmutt/cantera/__init__.py'
